@@ -47,6 +47,7 @@ type GSpec struct {
 	Rules      []*GRule // Rules[0] is @start
 	WithBounds bool     // parser type defines _onBounds
 	NilTwin    bool     // Go side: Node is an interface and some actions of non-empty productions return nil
+	ShareErr   bool     // Go side: a production `@error …` and a sibling `TOKEN …` of the same shape share ONE method whose first parameter is `any`
 	Reinject   bool     // Go side: the action of a production `@error TOKEN` hands TOKEN back with recoverLookahead (no Lean model: oracle only)
 }
 
@@ -147,6 +148,37 @@ func (s *GSpec) GoSource(pkg string) string {
 	var ms strings.Builder
 	for ri, r := range s.Rules {
 		seen := map[string]bool{}
+		if s.ShareErr {
+			// one method for `@error rest…` and `TOKEN rest…`: its first parameter is interface-typed and receives an Error
+			// for one production and a Token for the other
+			sigOf := func(p *GProd) []string {
+				var sig []string
+				for _, t := range p.Terms {
+					sig = append(sig, s.goType(t))
+				}
+				return sig
+			}
+			for _, p := range r.Prods {
+				sp := sigOf(p)
+				if len(sp) == 0 || sp[0] != "Error" {
+					continue
+				}
+				for _, q := range r.Prods {
+					sq := sigOf(q)
+					if len(sq) == len(sp) && sq[0] == "Token" && strings.Join(sq[1:], ",") == strings.Join(sp[1:], ",") &&
+						!seen[strings.Join(sp, ",")] && !seen[strings.Join(sq, ",")] {
+						seen[strings.Join(sp, ",")], seen[strings.Join(sq, ",")] = true, true
+						params, args := []string{"a0 any"}, []string{"rv(a0)"}
+						for k := 1; k < len(sp); k++ {
+							params = append(params, fmt.Sprintf("a%d %s", k, sp[k]))
+							args = append(args, fmt.Sprintf("rv(a%d)", k))
+						}
+						fmt.Fprintf(&ms, "func (p *parserT) on_%s__shared%d(%s) Node { return p.mk(%d, []string{%s}) }\n",
+							r.Name, len(seen), strings.Join(params, ", "), ri+1, strings.Join(args, ", "))
+					}
+				}
+			}
+		}
 		for _, p := range r.Prods {
 			var sig []string
 			for _, t := range p.Terms {
